@@ -78,6 +78,16 @@ type fault struct {
 	Depth int    `json:"depth"`
 }
 
+// rcvSpec: pre-state of the object the document is read into (Serialization!Rcv)
+type rcvSpec struct {
+	Pre  string   `json:"pre"`
+	Rows int      `json:"rows"`
+	Cols int      `json:"cols"`
+	View []viewOp `json:"view"`
+}
+
+func (r rcvSpec) used() bool { return r.Pre != "" && r.Pre != "fresh" }
+
 type tcase struct {
 	Obj    absObj   `json:"obj"`
 	Fmt    string   `json:"fmt"`
@@ -88,6 +98,7 @@ type tcase struct {
 	Dev    string   `json:"dev"`
 	Model  string   `json:"model"`
 	Layout string   `json:"layout"`
+	Rcv    rcvSpec  `json:"rcv"`
 	// replay of a byte-mutation violation: the mutated document itself
 	Mutated *string `json:"mutated,omitempty"`
 }
@@ -243,6 +254,100 @@ func fresh(et *etype, src interface{}) (ptr interface{}, get func() interface{})
 	}
 	p := reflect.New(T) // dense vectors are slice types
 	return p.Interface(), func() interface{} { return p.Elem().Interface() }
+}
+
+// usedReceiver builds the object a document is read INTO when the case asks for
+// a receiver that is not a fresh zero value: every position holds non-zero
+// data, real elements are variables, and the view word of the receiver spec
+// is applied with the real T()/Slice() calls.  Returns the json.Unmarshal /
+// Import target and a getter for the object afterwards.
+func usedReceiver(et *etype, o *absObj, rc *rcvSpec, src interface{}) (ptr interface{}, get func() interface{}, err error) {
+	filler := []string{"one", "minusTwo", "typeMaxInt", "typeMinInt"}
+	fill := func(s Scalar, p int) {
+		v, _ := atomValue(et, filler[p%4])
+		setVal(et, s, v)
+	}
+	switch o.K {
+	case "scalar":
+		other, _ := atomValue(et, "typeMinInt")
+		if et.Const {
+			p := reflect.New(reflect.TypeOf(src))
+			p.Elem().Set(reflect.ValueOf(newConst(et, other)))
+			return p.Interface(), func() interface{} { return p.Elem().Interface() }, nil
+		}
+		if et.Real {
+			var s MagicScalar
+			if et.Bits == 32 {
+				s = NullReal32()
+			} else {
+				s = NullReal64()
+			}
+			setVal(et, s, other)
+			s.Alloc(3, 2)
+			for i := 0; i < 3; i++ {
+				s.SetDerivative(i, 1.5+float64(i))
+				for j := 0; j < 3; j++ {
+					s.SetHessian(i, j, 0.5+float64(i+2*j))
+				}
+			}
+			return s, func() interface{} { return s }, nil
+		}
+		s := NullScalar(et.ST)
+		setVal(et, s, other)
+		p := reflect.New(reflect.TypeOf(s))
+		p.Elem().Set(reflect.ValueOf(s))
+		return p.Interface(), func() interface{} { return p.Elem().Interface() }, nil
+	case "vector":
+		var v Vector
+		if o.St == "dense" {
+			v = NullDenseVector(et.ST, rc.Rows)
+		} else {
+			v = NullSparseVector(et.ST, rc.Rows)
+		}
+		for i := 0; i < rc.Rows; i++ {
+			fill(v.At(i), i)
+		}
+		if et.Real {
+			if e := v.(MagicVector).Variables(1); e != nil {
+				return nil, nil, e
+			}
+		}
+		for _, w := range rc.View {
+			v = v.Slice(w.I, w.J)
+		}
+		if reflect.TypeOf(v).Kind() == reflect.Ptr {
+			return v, func() interface{} { return v }, nil
+		}
+		p := reflect.New(reflect.TypeOf(v)) // dense vectors are slice values: the receiver is a variable holding the used slice
+		p.Elem().Set(reflect.ValueOf(v))
+		return p.Interface(), func() interface{} { return p.Elem().Interface() }, nil
+	case "matrix":
+		var m Matrix
+		if o.St == "dense" {
+			m = NullDenseMatrix(et.ST, rc.Rows, rc.Cols)
+		} else {
+			m = NullSparseMatrix(et.ST, rc.Rows, rc.Cols)
+		}
+		for i := 0; i < rc.Rows; i++ {
+			for j := 0; j < rc.Cols; j++ {
+				fill(m.At(i, j), i*rc.Cols+j)
+			}
+		}
+		if et.Real {
+			if e := m.(MagicMatrix).Variables(1); e != nil {
+				return nil, nil, e
+			}
+		}
+		for _, w := range rc.View {
+			if w.Op == "T" {
+				m = m.T()
+			} else {
+				m = m.Slice(w.R0, w.R1, w.C0, w.C1)
+			}
+		}
+		return m, func() interface{} { return m }, nil
+	}
+	return nil, nil, fmt.Errorf("no receiver for kind %s", o.K)
 }
 
 // ---- observation ---------------------------------------------------------
@@ -444,6 +549,21 @@ func compare(et *etype, e *absExp, o *observation, withDeriv bool) (string, stri
 		if o.Bits[0] != want {
 			return "value", fmt.Sprintf("value %s, expected %s (%s)", showBits(et, o.Bits[0]), showBits(et, want), e.V)
 		}
+		if withDeriv && e.Order == 0 {
+			// the document carries no derivatives: the receiver must not show any (stale ones of a used receiver)
+			for i, g := range o.Grad {
+				if math.Float64frombits(g) != 0 {
+					return "stale_derivative", fmt.Sprintf("gradient[%d] is %v although the document carries no derivatives", i, math.Float64frombits(g))
+				}
+			}
+			for i := range o.Hess {
+				for j, h := range o.Hess[i] {
+					if math.Float64frombits(h) != 0 {
+						return "stale_derivative", fmt.Sprintf("hessian[%d][%d] is %v although the document carries no derivatives", i, j, math.Float64frombits(h))
+					}
+				}
+			}
+		}
 		if !withDeriv || e.Order == 0 {
 			return "", ""
 		}
@@ -495,6 +615,9 @@ func compare(et *etype, e *absExp, o *observation, withDeriv bool) (string, stri
 			}
 			if el.A != "zero" && el.A != "negzero" {
 				nz = append(nz, k)
+			}
+			if withDeriv && el.N == 0 && k < len(o.ElHot) && o.ElHot[k] != -1 {
+				return "stale_derivative", fmt.Sprintf("element %d shows a derivative although the document carries none", k)
 			}
 			if withDeriv && el.N > 0 {
 				if k >= len(o.ElN) || o.ElN[k] != el.N || o.ElHot[k] != el.Hot {
